@@ -33,22 +33,22 @@ pub broadcast axiom fn ax_class(x: f64)
 
 // ---- M1: totality ----------------------------------------------------------
 pub broadcast axiom fn ax_add_req(a: f64, b: f64)
-    ensures #[trigger] a.add_req(b), <f64 as AddSpec<f64>>::obeys_add_spec();
+    ensures #[trigger] <f64 as AddSpec<f64>>::add_req(a, b), <f64 as AddSpec<f64>>::obeys_add_spec();
 pub broadcast axiom fn ax_sub_req(a: f64, b: f64)
-    ensures #[trigger] a.sub_req(b), <f64 as SubSpec<f64>>::obeys_sub_spec();
+    ensures #[trigger] <f64 as SubSpec<f64>>::sub_req(a, b), <f64 as SubSpec<f64>>::obeys_sub_spec();
 pub broadcast axiom fn ax_mul_req(a: f64, b: f64)
-    ensures #[trigger] a.mul_req(b), <f64 as MulSpec<f64>>::obeys_mul_spec();
+    ensures #[trigger] <f64 as MulSpec<f64>>::mul_req(a, b), <f64 as MulSpec<f64>>::obeys_mul_spec();
 pub broadcast axiom fn ax_div_req(a: f64, b: f64)
-    ensures #[trigger] a.div_req(b), <f64 as DivSpec<f64>>::obeys_div_spec();
+    ensures #[trigger] <f64 as DivSpec<f64>>::div_req(a, b), <f64 as DivSpec<f64>>::obeys_div_spec();
 pub broadcast axiom fn ax_rem_req(a: f64, b: f64)
-    ensures #[trigger] a.rem_req(b), <f64 as RemSpec<f64>>::obeys_rem_spec();
+    ensures #[trigger] <f64 as RemSpec<f64>>::rem_req(a, b), <f64 as RemSpec<f64>>::obeys_rem_spec();
 pub broadcast axiom fn ax_cmp_obeys(a: f64, b: f64)
     ensures
-        #![trigger a.partial_cmp_spec(&b)]
+        #![trigger <f64 as PartialOrdSpec<f64>>::partial_cmp_spec(&a, &b)]
         <f64 as PartialOrdSpec<f64>>::obeys_partial_cmp_spec();
 pub broadcast axiom fn ax_eq_obeys(a: f64, b: f64)
     ensures
-        #![trigger a.eq_spec(&b)]
+        #![trigger <f64 as PartialEqSpec<f64>>::eq_spec(&a, &b)]
         <f64 as PartialEqSpec<f64>>::obeys_eq_spec();
 
 // the `obeys_*` flags are 0-ary: stated once, called from the generated `unit_axioms()`
@@ -61,30 +61,37 @@ pub open spec fn obeys_all() -> bool {
 pub axiom fn ax_obeys()
     ensures obeys_all();
 
+// short names for the spec results of the float operators (open: they unfold to the trait functions)
+pub open spec fn fadd(a: f64, b: f64) -> f64 { <f64 as AddSpec<f64>>::add_spec(a, b) }
+pub open spec fn fsub(a: f64, b: f64) -> f64 { <f64 as SubSpec<f64>>::sub_spec(a, b) }
+pub open spec fn fmul(a: f64, b: f64) -> f64 { <f64 as MulSpec<f64>>::mul_spec(a, b) }
+pub open spec fn fdiv(a: f64, b: f64) -> f64 { <f64 as DivSpec<f64>>::div_spec(a, b) }
+pub open spec fn frem(a: f64, b: f64) -> f64 { <f64 as RemSpec<f64>>::rem_spec(a, b) }
+
 // ---- M2: finite arithmetic is real arithmetic ------------------------------
 pub broadcast axiom fn ax_add(a: f64, b: f64)
     requires fin(a), fin(b)
-    ensures fin(#[trigger] a.add_spec(b)), rv(a.add_spec(b)) == rv(a) + rv(b);
+    ensures fin(#[trigger] <f64 as AddSpec<f64>>::add_spec(a, b)), rv(<f64 as AddSpec<f64>>::add_spec(a, b)) == rv(a) + rv(b);
 pub broadcast axiom fn ax_sub(a: f64, b: f64)
     requires fin(a), fin(b)
-    ensures fin(#[trigger] a.sub_spec(b)), rv(a.sub_spec(b)) == rv(a) - rv(b);
+    ensures fin(#[trigger] <f64 as SubSpec<f64>>::sub_spec(a, b)), rv(<f64 as SubSpec<f64>>::sub_spec(a, b)) == rv(a) - rv(b);
 pub broadcast axiom fn ax_mul(a: f64, b: f64)
     requires fin(a), fin(b)
-    ensures fin(#[trigger] a.mul_spec(b)), rv(a.mul_spec(b)) == rv(a) * rv(b);
+    ensures fin(#[trigger] <f64 as MulSpec<f64>>::mul_spec(a, b)), rv(<f64 as MulSpec<f64>>::mul_spec(a, b)) == rv(a) * rv(b);
 pub broadcast axiom fn ax_div(a: f64, b: f64)
     requires fin(a), fin(b), rv(b) != 0real
-    ensures fin(#[trigger] a.div_spec(b)), rv(a.div_spec(b)) == rv(a) / rv(b);
+    ensures fin(#[trigger] <f64 as DivSpec<f64>>::div_spec(a, b)), rv(<f64 as DivSpec<f64>>::div_spec(a, b)) == rv(a) / rv(b);
 // Rust `%` on floats is C fmod: result has the sign of the dividend,
 // |r| < |b|, a - r is an integer multiple of b.
 pub uninterp spec fn fmod_q(a: f64, b: f64) -> int;
 pub broadcast axiom fn ax_rem(a: f64, b: f64)
     requires fin(a), fin(b), rv(b) != 0real
     ensures
-        fin(#[trigger] a.rem_spec(b)),
-        rv(a) == rv(a.rem_spec(b)) + (fmod_q(a, b) as real) * rv(b),
-        rabs(rv(a.rem_spec(b))) < rabs(rv(b)),
-        rv(a) >= 0real ==> rv(a.rem_spec(b)) >= 0real,
-        rv(a) <= 0real ==> rv(a.rem_spec(b)) <= 0real;
+        fin(#[trigger] <f64 as RemSpec<f64>>::rem_spec(a, b)),
+        rv(a) == rv(<f64 as RemSpec<f64>>::rem_spec(a, b)) + (fmod_q(a, b) as real) * rv(b),
+        rabs(rv(<f64 as RemSpec<f64>>::rem_spec(a, b))) < rabs(rv(b)),
+        rv(a) >= 0real ==> rv(<f64 as RemSpec<f64>>::rem_spec(a, b)) >= 0real,
+        rv(a) <= 0real ==> rv(<f64 as RemSpec<f64>>::rem_spec(a, b)) <= 0real;
 
 // comparisons
 pub open spec fn cmp_real(a: real, b: real) -> Option<Ordering> {
@@ -92,48 +99,48 @@ pub open spec fn cmp_real(a: real, b: real) -> Option<Ordering> {
 }
 pub broadcast axiom fn ax_cmp(a: f64, b: f64)
     ensures
-        #![trigger a.partial_cmp_spec(&b)]
-        fin(a) && fin(b) ==> a.partial_cmp_spec(&b) == cmp_real(rv(a), rv(b)),
-        nan(a) || nan(b) ==> a.partial_cmp_spec(&b) == None::<Ordering>,
-        pinf(a) && (fin(b) || ninf(b)) ==> a.partial_cmp_spec(&b) == Some(Ordering::Greater),
-        ninf(a) && (fin(b) || pinf(b)) ==> a.partial_cmp_spec(&b) == Some(Ordering::Less),
-        pinf(b) && (fin(a) || ninf(a)) ==> a.partial_cmp_spec(&b) == Some(Ordering::Less),
-        ninf(b) && (fin(a) || pinf(a)) ==> a.partial_cmp_spec(&b) == Some(Ordering::Greater),
-        pinf(a) && pinf(b) ==> a.partial_cmp_spec(&b) == Some(Ordering::Equal),
-        ninf(a) && ninf(b) ==> a.partial_cmp_spec(&b) == Some(Ordering::Equal);
+        #![trigger <f64 as PartialOrdSpec<f64>>::partial_cmp_spec(&a, &b)]
+        fin(a) && fin(b) ==> <f64 as PartialOrdSpec<f64>>::partial_cmp_spec(&a, &b) == cmp_real(rv(a), rv(b)),
+        nan(a) || nan(b) ==> <f64 as PartialOrdSpec<f64>>::partial_cmp_spec(&a, &b) == None::<Ordering>,
+        pinf(a) && (fin(b) || ninf(b)) ==> <f64 as PartialOrdSpec<f64>>::partial_cmp_spec(&a, &b) == Some(Ordering::Greater),
+        ninf(a) && (fin(b) || pinf(b)) ==> <f64 as PartialOrdSpec<f64>>::partial_cmp_spec(&a, &b) == Some(Ordering::Less),
+        pinf(b) && (fin(a) || ninf(a)) ==> <f64 as PartialOrdSpec<f64>>::partial_cmp_spec(&a, &b) == Some(Ordering::Less),
+        ninf(b) && (fin(a) || pinf(a)) ==> <f64 as PartialOrdSpec<f64>>::partial_cmp_spec(&a, &b) == Some(Ordering::Greater),
+        pinf(a) && pinf(b) ==> <f64 as PartialOrdSpec<f64>>::partial_cmp_spec(&a, &b) == Some(Ordering::Equal),
+        ninf(a) && ninf(b) ==> <f64 as PartialOrdSpec<f64>>::partial_cmp_spec(&a, &b) == Some(Ordering::Equal);
 pub broadcast axiom fn ax_eq(a: f64, b: f64)
     ensures
-        #![trigger a.eq_spec(&b)]
-        fin(a) && fin(b) ==> a.eq_spec(&b) == (rv(a) == rv(b)),
-        nan(a) || nan(b) ==> !a.eq_spec(&b),
-        (pinf(a) || ninf(a)) && fin(b) ==> !a.eq_spec(&b),
-        (pinf(b) || ninf(b)) && fin(a) ==> !a.eq_spec(&b),
-        pinf(a) && pinf(b) ==> a.eq_spec(&b),
-        ninf(a) && ninf(b) ==> a.eq_spec(&b),
-        pinf(a) && ninf(b) ==> !a.eq_spec(&b),
-        ninf(a) && pinf(b) ==> !a.eq_spec(&b);
+        #![trigger <f64 as PartialEqSpec<f64>>::eq_spec(&a, &b)]
+        fin(a) && fin(b) ==> <f64 as PartialEqSpec<f64>>::eq_spec(&a, &b) == (rv(a) == rv(b)),
+        nan(a) || nan(b) ==> !<f64 as PartialEqSpec<f64>>::eq_spec(&a, &b),
+        (pinf(a) || ninf(a)) && fin(b) ==> !<f64 as PartialEqSpec<f64>>::eq_spec(&a, &b),
+        (pinf(b) || ninf(b)) && fin(a) ==> !<f64 as PartialEqSpec<f64>>::eq_spec(&a, &b),
+        pinf(a) && pinf(b) ==> <f64 as PartialEqSpec<f64>>::eq_spec(&a, &b),
+        ninf(a) && ninf(b) ==> <f64 as PartialEqSpec<f64>>::eq_spec(&a, &b),
+        pinf(a) && ninf(b) ==> !<f64 as PartialEqSpec<f64>>::eq_spec(&a, &b),
+        ninf(a) && pinf(b) ==> !<f64 as PartialEqSpec<f64>>::eq_spec(&a, &b);
 
 // non-finite propagation actually needed (inf/NaN through + - and /2)
 pub broadcast axiom fn ax_add_nonfin(a: f64, b: f64)
     ensures
-        #![trigger a.add_spec(b)]
-        nan(a) || nan(b) ==> nan(a.add_spec(b)),
-        pinf(a) && (fin(b) || pinf(b)) ==> pinf(a.add_spec(b)),
-        pinf(b) && (fin(a) || pinf(a)) ==> pinf(a.add_spec(b)),
-        ninf(a) && (fin(b) || ninf(b)) ==> ninf(a.add_spec(b)),
-        ninf(b) && (fin(a) || ninf(a)) ==> ninf(a.add_spec(b));
+        #![trigger <f64 as AddSpec<f64>>::add_spec(a, b)]
+        nan(a) || nan(b) ==> nan(<f64 as AddSpec<f64>>::add_spec(a, b)),
+        pinf(a) && (fin(b) || pinf(b)) ==> pinf(<f64 as AddSpec<f64>>::add_spec(a, b)),
+        pinf(b) && (fin(a) || pinf(a)) ==> pinf(<f64 as AddSpec<f64>>::add_spec(a, b)),
+        ninf(a) && (fin(b) || ninf(b)) ==> ninf(<f64 as AddSpec<f64>>::add_spec(a, b)),
+        ninf(b) && (fin(a) || ninf(a)) ==> ninf(<f64 as AddSpec<f64>>::add_spec(a, b));
 pub broadcast axiom fn ax_sub_nonfin(a: f64, b: f64)
     ensures
-        #![trigger a.sub_spec(b)]
-        nan(a) || nan(b) ==> nan(a.sub_spec(b)),
-        pinf(a) && (fin(b) || ninf(b)) ==> pinf(a.sub_spec(b)),
-        ninf(a) && (fin(b) || pinf(b)) ==> ninf(a.sub_spec(b)),
-        fin(a) && pinf(b) ==> ninf(a.sub_spec(b)),
-        fin(a) && ninf(b) ==> pinf(a.sub_spec(b));
+        #![trigger <f64 as SubSpec<f64>>::sub_spec(a, b)]
+        nan(a) || nan(b) ==> nan(<f64 as SubSpec<f64>>::sub_spec(a, b)),
+        pinf(a) && (fin(b) || ninf(b)) ==> pinf(<f64 as SubSpec<f64>>::sub_spec(a, b)),
+        ninf(a) && (fin(b) || pinf(b)) ==> ninf(<f64 as SubSpec<f64>>::sub_spec(a, b)),
+        fin(a) && pinf(b) ==> ninf(<f64 as SubSpec<f64>>::sub_spec(a, b)),
+        fin(a) && ninf(b) ==> pinf(<f64 as SubSpec<f64>>::sub_spec(a, b));
 pub broadcast axiom fn ax_mul_nonfin(a: f64, b: f64)
     ensures
-        #![trigger a.mul_spec(b)]
-        nan(a) || nan(b) ==> nan(a.mul_spec(b));
+        #![trigger <f64 as MulSpec<f64>>::mul_spec(a, b)]
+        nan(a) || nan(b) ==> nan(<f64 as MulSpec<f64>>::mul_spec(a, b));
 
 // ---- unary / libm -----------------------------------------------------------
 // Verus has no unary minus on floats: rule R8 rewrites `-e` to `fneg(e)`.
